@@ -190,6 +190,10 @@ class FileStorageFormatter:
                 return _file.read(h.plen), h.tid, back, h.tloc
             if h.back == 0 and not fail:
                 return None, h.tid, back, h.tloc
+            if h.back >= back:
+                # A backpointer always points to an earlier record;
+                # following this one would never end.
+                raise CorruptedDataError(oid, None, back)
             back = h.back
 
     def _loadBackTxn(self, oid, back, fail=True):
